@@ -328,6 +328,15 @@ class PendingWhile(_PendingLoop[While]):
         else:
             while_loop_test = expr_transf(self.nsp, self.node.test)
 
+        # the test runs inside a lambda: a plain assignment expression there
+        # would bind a variable of that lambda instead of the enclosing scope
+        if any(isinstance(_node, NamedExpr) for _node in walk(while_loop_test)):
+            raise RuntimeError(
+                utils.ast_debug_info(self.node)
+                + "Unable to convert an assignment expression "
+                "in the condition of a 'while' loop"
+            )
+
         # "orelse" runs if there's no break
         while_loop_orelse: expr
         if self.break_cnt:
